@@ -7,6 +7,7 @@ import (
 	"go/types"
 	"os"
 	"sort"
+	"strconv"
 	"strings"
 
 	"golang.org/x/tools/go/ssa"
@@ -481,6 +482,12 @@ func (x *Exprer) callExpr(c *ssa.CallCommon, v ssa.Value) *Expr {
 		args = append(args, x.E(a))
 	}
 	if b, ok := c.Value.(*ssa.Builtin); ok {
+		// len of a constant string (also behind a []byte conversion, which the compiler does not fold) is its number
+		if b.Name() == "len" && len(args) == 1 && args[0].Op == "const" && strings.HasPrefix(args[0].Name, "\"") {
+			if u, err := strconv.Unquote(args[0].Name); err == nil {
+				return mk("const", strconv.Itoa(len(u)), v)
+			}
+		}
 		return mk("builtin", b.Name(), v, args...)
 	}
 	if fn := x.P.resolveCallee(c); fn != nil {
